@@ -171,7 +171,12 @@ func TestVerif_C07(t *testing.T) {
 	mk := func(o c07Opts, b, bt int) bScenario {
 		return bScenario{Name: o.name, Bound: b, BoundT: bt, Body: c07Body(o)}
 	}
-	runBScenarios(t, "C07", []bScenario{
+	w := newWorker(t, "C07")
+	defer w.finish()
+	if runHistories(w, "C07", 5, 6) {
+		return
+	}
+	runBScenariosW(w, "C07", []bScenario{
 		mk(c07Opts{name: "shm-shm-close", streams: []c07Stream{{sizes: []int{5, 20}, close: true}}}, 1, 2),
 		mk(c07Opts{name: "shm-fallback-sticky-close", freeSmall: 2, streams: []c07Stream{{sizes: []int{5, 100, 4}, close: true}}}, 2, 3),
 		mk(c07Opts{name: "fallback-close", freeSmall: 2, streams: []c07Stream{{sizes: []int{100}, close: true}}}, 2, 3),
